@@ -42,6 +42,7 @@ class Scheduler:
         self.lock = threading.Lock()
         self.record = False
         self.step_names: List[str] = []
+        self.step_lines: List[Tuple[str, int]] = []
 
     # -- baton -------------------------------------------------------------------------------------
     def _wait_for_baton(self, i: int) -> None:
@@ -79,6 +80,7 @@ class Scheduler:
         self.steps_by_thread[i] += 1
         if self.record:
             self.step_names.append(frame.f_code.co_name)
+            self.step_lines.append((frame.f_code.co_filename.rsplit("/", 1)[-1], frame.f_lineno))
         target = self.switch_at.get(self.steps)
         if target is None or target == i or self.done[target]:
             return
@@ -127,4 +129,5 @@ def run_alone(body: Callable[[], Any], trace_filter: Callable[[str], bool] = def
     if s.errors[0] is not None:
         raise s.errors[0]
     run_alone.last_step_names = s.step_names  # type: ignore[attr-defined]
+    run_alone.last_step_lines = s.step_lines  # type: ignore[attr-defined]
     return res[0], s.steps
